@@ -21,7 +21,8 @@ QUICK = [("EOF", True, False, True), ("EOF", False, True, False), ("POP", True, 
          ("MCA", True, False, True), ("CPCCA", True, False, True), ("HilbertEOF", True, False, True),
          ("ExtendedEOF", True, False, True), ("SparsePCA", True, False, True), ("OPA", True, False, True),
          ("ComplexEOF", True, False, True), ("multiCCA", True, False, True), ("EOFstd", True, False, True),
-         ("EOF2s", True, False, True), ("MCA2s", True, False, True), ("EOFnc", True, False, True)]
+         ("EOF2s", True, False, True), ("MCA2s", True, False, True), ("EOFnc", True, False, True),
+         ("MCAall", True, False, True)]
 THOROUGH = QUICK + [("EOF", True, True, True), ("POP", False, True, False), ("CCA", True, False, True),
                     ("RDA", True, False, True), ("ComplexMCA", True, False, True), ("CPCCA", False, True, False),
                     ("MCA", False, True, True)]
